@@ -331,6 +331,34 @@ func (w *World) detectRenames() {
 					renameNotes = append(renameNotes, "field "+rel+"."+tname(tn)+"."+f.Name()+" is taken as the recorded "+wf.Name)
 				}
 			}
+			// fields that were renamed and moved: a recorded name that is gone and a new unexported name pair up when
+			// they are the only leftovers of their type
+			taken := map[string]bool{}
+			for i := 0; i < st.NumFields(); i++ {
+				if on, ok := oldFieldName[st.Field(i)]; ok {
+					taken[on] = true
+				}
+			}
+			goneByType := map[string][]string{}
+			for _, wf := range want.Fields {
+				if !curNames[wf.Name] && !taken[wf.Name] {
+					goneByType[wf.Type] = append(goneByType[wf.Type], wf.Name)
+				}
+			}
+			newByType := map[string][]*types.Var{}
+			for i := 0; i < st.NumFields(); i++ {
+				f := st.Field(i)
+				if _, done := oldFieldName[f]; done || recNames[f.Name()] || f.Exported() {
+					continue
+				}
+				newByType[typeStr(f.Type())] = append(newByType[typeStr(f.Type())], f)
+			}
+			for ts, gone := range goneByType {
+				if cur := newByType[ts]; len(gone) == 1 && len(cur) == 1 {
+					oldFieldName[cur[0]] = gone[0]
+					renameNotes = append(renameNotes, "field "+rel+"."+tname(tn)+"."+cur[0].Name()+" (moved) is taken as the recorded "+gone[0])
+				}
+			}
 		}
 	}
 	// ---- functions ----
